@@ -21,21 +21,42 @@ def key_fn(case, obs, verdict):
 RULE = ("non-trivial: the implementation released at least 2 tokens and the profile is not a flat rate over a whole "
         "number of seconds (steps always count); distinct = distinct case lines")
 BRIDGES = ["Gen/Sched_bridge.v"]
+# float rounding bound (Flocq): statements only, proofs in Proofs/SchedFloat*.v (built once, cached)
+FLOAT = ["Properties/C01_float.v"]
 TRUSTED = [
     "translator harness/cmd/translate sched (go/ast over NewConst, constDoAt, NewLine, lineDoAt, NewOnce, NewStep -> arithmetic AST of "
     "Model/SchedExpr.v; local definitions inlined, integer vs float division decided from the declared parameter types)",
     "extraction: ExtrOcamlBasic only; OCaml driver ocaml/C01/main.ml + ocaml/common/conv.ml (zarith for decimal I/O); the driver applies the "
     "float64 tolerance of DESIGN.md section 3 (1 ns + D*2^-40 on instants, relative 2^-40 on the integral before rounding down)",
     "correspondence harness harness/cmd/hC01 (real schedule.NewConstConf/NewLineConf/NewStepConf/NewOnceConf, Start, Next, Left)",
-    "modelled, not verified: IEEE-754 rounding of the float64 evaluation (exact rationals in the model; rates enter as the configured "
-    "decimal/rational value); int64 overflow of token counts beyond 2^63; do_at.go / step.go loop / composite sequencing are hand-modelled "
-    "(tied by the correspondence run, the step loop header also by the translator)",
-    "C01_closed_form only: Coq Reals axioms ClassicalDedekindReals.sig_forall_dec, sig_not_dec, FunctionalExtensionality.functional_extensionality_dep",
+    "float64 rounding: PROVED within the driver's tolerance (Properties/C01_float.v, Flocq binary64 = FLT(-1074,53), round to nearest even) for "
+    "const profiles (instants and count, rate = configured rational rounded once to float64, guard 2^-20 <= ops <= 2^40, D <= 2^62, k < 2^53) and "
+    "for increasing lines with binary64 rates (instants incl. the cancellation term D*kappa*2^-48, count; slope guard 2^-40 <= a <= 2^50); "
+    "decreasing lines, lines whose rates are not binary64 numbers, and step levels accumulated by float additions stay modelled in exact "
+    "arithmetic with the tolerance measured by the correspondence run only",
+    "modelled, not verified: int64 overflow of token counts beyond 2^63 (C01_float bounds the converted values inside int64 under I <= 2^62); "
+    "do_at.go / step.go loop / composite sequencing are hand-modelled (tied by the correspondence run, the step loop header also by the translator)",
+    "C01_closed_form: Coq Reals axioms ClassicalDedekindReals.sig_forall_dec, sig_not_dec, FunctionalExtensionality.functional_extensionality_dep; "
+    "C01_float_*: the same three plus Classical_Prop.classic (through Flocq)",
 ]
 ASSUMPTIONS = [
-    "float64 evaluation of the schedule formulas stays within 1 ns + D*2^-40 of the exact value (measured on every run, not proved)",
+    "go_float64_correctly_rounded: every Go float64 operation of const.go/line.go (* / + - math.Sqrt, int64->float64) is the real operation rounded "
+    "to the nearest binary64 number, ties to even, one rounding per source operation (no fused multiply-add: amd64 at the default GOAMD64 level); "
+    "float64->int64/Duration truncates toward zero. Under it the float64 evaluation is proved to stay within 1 ns + D*2^-40 (+ D*kappa*2^-48 for "
+    "increasing lines) of the exact value and the count within relative 2^-40 of the integral (Properties/C01_float.v); for decreasing lines the "
+    "same tolerance is measured on every run, not proved",
     "sync/atomic counter of doAtSchedule is linearizable (token k is handed out once; concurrency is property C02)",
 ]
+
+
+def coqchk_extra(ctx, name):
+    """ctx.coqchk() re-checks Properties/C01.vo only; the same for a second Properties file."""
+    prop = ctx.prop
+    ctx.prop = name
+    try:
+        return ctx.coqchk()
+    finally:
+        ctx.prop = prop
 
 
 def run(ctx):
@@ -46,11 +67,11 @@ def run(ctx):
     ok_t = common.translate(ctx, "sched", "SchedGen.v")
     model_ok = ctx.coq(["Extract/Extract%s.vo" % ctx.prop], what="model+extraction")
     if model_ok and ok_t:
-        ctx.properties(extra_files=BRIDGES)
+        ctx.properties(extra_files=BRIDGES + FLOAT)
     elif model_ok:
         # Gen/SchedGen.v is stale: nothing about the current source can be discharged
         import os
-        files = [os.path.join(common.COQ, "Properties", "C01.v")] + [os.path.join(common.COQ, f) for f in BRIDGES]
+        files = [os.path.join(common.COQ, "Properties", "C01.v")] + [os.path.join(common.COQ, f) for f in BRIDGES + FLOAT]
         ctx.statements = [(k, n, os.path.relpath(f, common.COQ)) for f in files for (k, n) in common.count_statements(f)]
         ctx.obligations = len(ctx.statements)
         ctx.discharged = 0
@@ -64,5 +85,14 @@ def run(ctx):
             st2 = common.correspondence(ctx, h, m, key_fn=key_fn, tier="thorough", label="escalated")
             if st2:
                 cov["escalated_evaluations"] = st2["evaluations"]
+    if not ctx.quick() and not ctx.replay and model_ok and not ctx.brokens:
+        # thorough tier: independent re-check of the compiled proofs (Properties/C01.vo, then Properties/C01_float.vo with Flocq)
+        ck = ctx.coqchk()
+        if ck:
+            cov.update(ck)
+            ck2 = coqchk_extra(ctx, "C01_float")
+            if ck2:
+                cov["coqchk_axioms"] = sorted(set(cov.get("coqchk_axioms", [])) | set(ck2["coqchk_axioms"]))
+                cov["coqchk_wall_s"] = round(cov.get("coqchk_wall_s", 0) + ck2["coqchk_wall_s"], 1)
     cov["trusted_base_extra"] = TRUSTED
     ctx.finish(cov, assumptions=ASSUMPTIONS)
